@@ -1,0 +1,18 @@
+//go:build verif
+
+package sts
+
+// Contracts for /verif (contract-based deductive verification): interface-method contracts used at
+// invoke sites in the other packages. Comment-only file: only lines starting with "//@" are read.
+
+// T (A5): loggers and the receive/send logs have no effect on the state of their callers
+//@ interface ReceiveLogger.Received trusted
+//@   modifies nothing
+//@ interface ReceiveLogger.WasReceived trusted
+//@   modifies nothing
+//@ interface ReceiveLogger.Parse trusted
+//@   modifies everything
+//@ interface SendLogger.Sent trusted
+//@   modifies nothing
+//@ interface SendLogger.WasSent trusted
+//@   modifies nothing
